@@ -33,6 +33,7 @@ MIN_REACH = {
     "sweeps_following_an_equal_valued_sweep": {"quick": 10, "thorough": 120},
     "grids_over_512_settings_through_executors": {"quick": 2, "thorough": 3},
     "grids_over_2000_settings": {"quick": 4, "thorough": 4},
+    "second_sweeps_on_the_callers_pool": {"quick": 4, "thorough": 40},
     "grids_given_as_mappings_that_are_not_dicts": {"quick": 18, "thorough": 400},
     "calls_logged": {"quick": 3000, "thorough": 200000},
     "distinct_completion_orders": {"quick": 40, "thorough": 700},
@@ -287,9 +288,21 @@ def run_case(ctx, case):
         opts["shuffle"] = st["shuffle"]
 
     result, err = None, None
+    repeat_problem = None
     try:
         with quiet():
             result = xyzpy.combo_runner(fn, spelled, constants=constants or None, **opts)
+            if name == "threadpool" and case.get("values_as", "list") == "list":
+                # the caller's pool is used for a SECOND, identical sweep (with a silent twin of the function): it is
+                # the caller's to keep, and the answer is the same
+                try:
+                    again = xyzpy.combo_runner(probe.Probe(kind), spelled, constants=constants or None, **opts)
+                    d_again = refmodel.deep_eq(again, result)
+                    if d_again:
+                        repeat_problem = "a second identical sweep on the same pool gave another result: %s" % d_again
+                except Exception as e2:
+                    repeat_problem = "a second identical sweep on the caller's pool raised %r" % (e2,)
+                ctx.count("second_sweeps_on_the_callers_pool")
     except Exception as e:  # judged below
         err = e
     finally:
@@ -300,6 +313,8 @@ def run_case(ctx, case):
             else:
                 pool.shutdown(wait=True)
 
+    if repeat_problem:
+        ctx.violation(case, repeat_problem, {"api": "combo_runner", "oracle": "same-answer-again", "strategy": name})
     if loglist is None:
         recs, _ = probe.read_log(logfile)
     else:
